@@ -526,6 +526,9 @@ def check_C02(ctx):
             if 'handle' not in pool.caps[tid]:
                 for rk in ('buf', 'ped', 'bbuf', 'bped', 'bstream', 'bfstream', 'bfd'):
                     libcases.append((tid, rk, m, 'decr T%d %s %d %s' % (tid, rk, hexlen(m), m)))
+                if kind in ('trunc', 'inflate', 'del'):
+                    for rk in ('bufx2', 'pedx2'):      # the same reader object asked again after it refused
+                        libcases.append((tid, rk, m, 'decr T%d %s %d %s' % (tid, rk, hexlen(m), m)))
         for _ in range(4 if ctx.quick else 40):
             n = ctx.rng.randint(0, 32)
             m = ''.join('%02x' % ctx.rng.randrange(256) for _ in range(n)) or '-'
@@ -613,6 +616,11 @@ def check_C02(ctx):
         if o.startswith(('CRASH', 'HARNESS', 'OOM', 'EXCEPTION')):
             ctx.violate('memory-error:' + rk, 'hostile input crashed %s or tripped a sanitizer: %s -> %s' % (rk, line[:160], o[:400]),
                         {'type': type_desc(pool, tid), 'case': line, 'output': o})
+        elif rk.endswith('x2'):
+            f = sx.fields(o)
+            if int(f['used']) > int(f['of']):
+                ctx.violate('out-of-bounds:' + rk, 'after three reads through one reader it has consumed %s of the %s bytes it was given: %s -> %s' % (f['used'], f['of'], line[:160], o[:160]),
+                            {'type': type_desc(pool, tid), 'case': line, 'output': o})
     report_broken(ctx, broken, 'hostile-status', 'Deserializer::Read status = model dec status on hostile input')
     return finish_with_proofs(ctx, {'alloc_bound_rule': 'bytes passed to operator new during Read <= alloc_factor(type) * (input length + 1), alloc_factor = 4 * sum over reachable types of (object size estimate + 64) + 128'})
 
@@ -968,6 +976,17 @@ def check_C08(ctx):
         f1, f2 = [x for x in (9999, 9998, 9997, 70000, 70001, 70002) if x not in known][:2]
         unk = [(f1, [1, 2, 3]), (f1, []), (f2, [0xff] * 5)]
         items.append((r['tid'], build_table(h, unk[:1] + ents + unk[1:]), '-', ('unknown', val, None), None))
+        # unknown ids that differ from a known id only above bit 32 (and the other way round)
+        alias = [x for x in [(1 << 32) + i for i in known] + [i - (1 << 32) for i in known if i >= (1 << 32)] if x not in known and x >= 0][:2]
+        if alias:
+            items.append((r['tid'], build_table(h, [(alias[0], [0x07])] + ents + [(alias[-1], [0xbd, 0x01, 0x41])]), '-', ('unknown', val, None), None))
+        # every one of the first bytes of an entry's value (prefix, length, count) moved up by one, the frame grown to match:
+        # whether that is still an encoding of the entry's type is the documented format's call (judged against the model)
+        for k, (eid, body) in enumerate(ents):
+            for j in range(min(3, len(body))):
+                if body[j] < 0xff:
+                    g = ents[:k] + [(eid, body[:j] + [body[j] + 1] + body[j + 1:] + [0] * 3)] + ents[k + 1:]
+                    items.append((r['tid'], build_table(h, g), '-', ('corrupt', None, None), None))
         dels = [i for i, act in known.items() if not act]
         if dels:
             items.append((r['tid'], build_table(h, [(dels[0], [7, 7]), (dels[0], [8])] + ents), '-', ('deleted-twice', val, None), None))
@@ -1333,6 +1352,11 @@ def check_C16(ctx):
             elif c_[0] == 'P' and kind == 'w':
                 need_ = int(c_[1:])
             over_ = need_ is not None and need_ > left_
+            if over_ and not ok_ and o_ != ('12' if kind == 'r' else '13'):
+                ctx.violate('refusal-status', 'call %s is refused by the limit (%d bytes with %d left) with status %s; a bounded %s refuses with %s: %s' %
+                            (c_, need_, left_, o_, 'reader' if kind == 'r' else 'writer', 'ReadLimitReached (12)' if kind == 'r' else 'WriteLimitReached (13)', line[:200]),
+                            {'case': line, 'output': o})
+                break
             if over_ and ok_:
                 ctx.violate('limit-exceeded', 'call %s asks for %d bytes with %d left under the limit %d but was not refused: %s -> %s' % (c_, need_, left_, lim, line[:200], f['res'][:120]),
                             {'case': line, 'output': o})
@@ -1375,7 +1399,8 @@ def check_C17(ctx):
     rkinds = ['inst', 'buf', 'ped', 'vbuf', 'vped', 'stream', 'fd', 'bbuf', 'bped', 'binst']
     for _ in range(600 if ctx.quick else 60000):
         n = rng.choice([0, 1, 2, 7, 8, 9, 16, 31])
-        data = ''.join('%02x' % rng.randrange(256) for _ in range(n)) or '-'
+        # 0xff / 0x80 / 0x00 / 0x1a matter to stream readers (EOF as a char, sign, NUL, text-mode end of file)
+        data = ''.join('%02x' % rng.choice([0xff, 0xff, 0x80, 0x00, 0x1a, 0x0a, 0x0d, rng.randrange(256), rng.randrange(256)]) for _ in range(n)) or '-'
         calls = [c for c in gen_rcalls(rng, n, rng.randint(1, 8), False)]
         cases.append((n, data, calls))
     lines = []
@@ -1719,4 +1744,13 @@ def run(pid, tier, seed, replay=None):
         return 2
     build_driver()
     ctx = Ctx(pid, tier, seed)
-    return CHECKS[pid](ctx)
+    try:
+        return CHECKS[pid](ctx)
+    except HarnessBuildError as e:
+        # the implementation side of the correspondence cannot be built against the current tree: nothing ties the model to
+        # the code any more, so the property is not shown to hold (and no input can be exhibited)
+        ctx.violations[:] = [v for v in ctx.violations if not v[2].get('no_failing_input')]
+        ctx.violate('harness-build', 'the correspondence harness (code generated from the type pool, using the library through its public '
+                    'interface) no longer compiles against /repo; the tie between model and code cannot be established',
+                    {'no_failing_input': True, 'correspondence': 'C++ harness build (tools/build_harness.py)', 'compiler_output': e.log[-4000:]})
+        return finish(ctx)
